@@ -57,6 +57,11 @@ var c09URIPairs = [][2]string{
 	{"http://a.example/A/q", "http://a.example/%41/q"},
 	{"http://a.example/p/q", "http://a.example/p/./q"},
 	{"http://a.example/p/q", "http://a.example/p/x/../q"},
+	{"http://a.example/p/q", "http://a.example/p/%2e/q"},
+	{"http://a.example/p/q", "http://a.example/p/x/%2E%2e/q"},
+	{"http://a.example/p/q", "http://a.example/p/x/.%2E/q"},
+	{"http://a.example/p/q", "http://a.example/%2e/p/q"},
+	{"http://[fe80::1%25eth0]/p/q", "HTTP://[FE80::1%25eth0]:80/p/./%71#f"},
 	{"http://a.example/p/q", "http://a.example/p/q#frag"},
 	{"http://a.example", "http://a.example/"},
 	{"http://a.example/p%2Fq?x=%c3%a9", "http://a.example/p%2fq?x=%C3%A9"},
@@ -91,6 +96,8 @@ var c09HeaderPairs = []c09HeaderPair{
 	{Name: "vary-case", Vary: []string{"x-a"}, A: map[string][]string{"X-A": {"1"}}, B: map[string][]string{"x-a": {"1"}}},
 	{Name: "ae-order", Vary: []string{"Accept-Encoding"}, A: map[string][]string{"Accept-Encoding": {"gzip, br"}}, B: map[string][]string{"Accept-Encoding": {"br,gzip"}}},
 	{Name: "ae-alias", Vary: []string{"Accept-Encoding"}, A: map[string][]string{"Accept-Encoding": {"gzip"}}, B: map[string][]string{"Accept-Encoding": {"x-gzip"}}},
+	{Name: "te-order", Vary: []string{"TE"}, A: map[string][]string{"Te": {"trailers, deflate"}}, B: map[string][]string{"Te": {"deflate,trailers"}}},
+	{Name: "te-q1", Vary: []string{"TE"}, A: map[string][]string{"Te": {"gzip, deflate"}}, B: map[string][]string{"Te": {"gzip;q=1.0, deflate"}}},
 	{Name: "ae-q1", Vary: []string{"Accept-Encoding"}, A: map[string][]string{"Accept-Encoding": {"gzip, br"}}, B: map[string][]string{"Accept-Encoding": {"gzip;q=1.0, br"}}},
 	{Name: "al-order-q", Vary: []string{"Accept-Language"}, A: map[string][]string{"Accept-Language": {"en-US, fr;q=0.5"}}, B: map[string][]string{"Accept-Language": {"fr;q=0.5,en-US"}}},
 	{Name: "accept-order", Vary: []string{"Accept"}, A: map[string][]string{"Accept": {"text/html, application/json"}}, B: map[string][]string{"Accept": {"application/json,text/html"}}},
@@ -150,6 +157,7 @@ type c09Case struct {
 	ReqCC    string  `json:"req_cc"`
 	Noise    int     `json:"noise"`
 	BodySize int     `json:"body_size"`
+	EmptyMethod bool `json:"empty_method,omitempty"`
 	fresh    c09Fresh
 	hdr      c09HeaderPair
 }
@@ -192,7 +200,7 @@ func c09Respell(r *rand.Rand, scheme, host, port, path, query string) string {
 	}
 	if chance(r, 0.3) && strings.Count(path, "/") >= 2 { // dot segments
 		i := strings.LastIndexByte(path, '/')
-		path = path[:i] + pick(r, []string{"/.", "/x/..", "/x/y/../.."}) + path[i:]
+		path = path[:i] + pick(r, []string{"/.", "/x/..", "/x/y/../..", "/%2e", "/x/%2E%2E", "/x/.%2e"}) + path[i:]
 	}
 	if path == "/" && chance(r, 0.3) {
 		path = ""
@@ -261,6 +269,7 @@ func genC09(r *rand.Rand) c09Case {
 	if chance(r, 0.1) && c.ElapsedS > 1 {
 		c.ElapsedS -= 0.7
 	}
+	c.EmptyMethod = chance(r, 0.06)
 	return c
 }
 
@@ -356,8 +365,12 @@ func c09Run(r *run.Runner, c c09Case) {
 	if c.ReqCC != "" {
 		h["Cache-Control"] = []string{c.ReqCC}
 	}
-	ex := w.Do(sim.ReqSpec{URL: c.URLb, Header: h})
-	r.Nontrivial(fmt.Sprintf("%s|%d|%s|%s|%s|%s|%v|%s", c.Fresh, c.Status, c.Backend, c.URLa, c.URLb, c.Hdr, c.ElapsedS, c.ReqCC))
+	follow := sim.ReqSpec{URL: c.URLb, Header: h}
+	if c.EmptyMethod {
+		follow.Method = "<empty>" // a request built as a struct literal: "" means GET for clients
+	}
+	ex := w.Do(follow)
+	r.Nontrivial(fmt.Sprintf("%s|%d|%s|%s|%s|%s|%v|%s|%v", c.Fresh, c.Status, c.Backend, c.URLa, c.URLb, c.Hdr, c.ElapsedS, c.ReqCC, c.EmptyMethod))
 	r.Count("backend:"+c.Backend, 1)
 	r.Count("fresh:"+c.Fresh, 1)
 	r.Count("hdr:"+c.Hdr, 1)
@@ -367,6 +380,9 @@ func c09Run(r *run.Runner, c c09Case) {
 	}
 	if c.ReqCC != "" {
 		sig += ",req=" + c.ReqCC
+	}
+	if c.EmptyMethod {
+		sig += ",empty-method"
 	}
 	obs := exSummaries(w)
 	switch {
